@@ -315,8 +315,49 @@ def cidr(cfg, crate, I, rep):
         v = core(out["value"])
         from interp import StructV
         want_variant = "V4" if width == "u32" else "V6"
+        if isinstance(v, StructV) and "1" in v.fields:
+            got = core(v.fields["1"]).r()
+            W = "core::num::<impl %s>::" % width
+            shapes = [
+                W + "to_be_bytes(!(std::option::Option::unwrap_or(" + W + "checked_shr(" + W + "max_value(), prefix.as:u32), 0)))",
+                W + "to_be_bytes(!(std::option::Option::unwrap_or(" + W + "checked_shr(" + W + "MAX, prefix.as:u32), 0)))",
+            ]
+            rep.ob("C02.tables", "%s|%s|mask-shape" % (cfg, fn), got in shapes, "the mask is exactly !(MAX.checked_shr(prefix) or 0 when prefix >= width) in network byte order (a wrapping / unchecked shift, a shifted prefix or another fallback gives wrong masks for some prefix lengths)", expected=shapes[0], found=got)
         ok = isinstance(v, StructV) and (v.variant or "").endswith(want_variant) and places(v.fields.get("0")) == {"addr"} and "prefix" in places(v.fields.get("1"))
         rep.ob("C02.tables", "%s|%s|pairing" % (cfg, fn), ok, "%s(addr, mask(prefix))" % want_variant, found=v.r())
+    fn = "certificate::CidrSubnet::from_addr_prefix"
+    rep.fn(fn)
+    v = core(Interp(crate).run_fn(fn)["value"])
+    want = "phi(addr is V4 -> certificate::CidrSubnet::from_v4_prefix(std::net::Ipv4Addr::octets(addr#V4.0), prefix) | addr is V6 -> certificate::CidrSubnet::from_v6_prefix(std::net::Ipv6Addr::octets(addr#V6.0), prefix))"
+    rep.ob("C02.tables", "%s|%s" % (cfg, fn), v.r() == want, "IPv4 addresses go to the 32-bit constructor and IPv6 to the 128-bit one, octets and prefix unchanged", expected=want, found=v.r())
+    fn = "<certificate::CidrSubnet as std::str::FromStr>::from_str"
+    if fn in crate.bodies:
+        rep.fn(fn)
+        I2 = Interp(crate)
+        v = core(I2.run_fn(fn)["value"])
+        calls = [(c, a) for c, a, n_, cnd, f in I2.calls if c == "certificate::CidrSubnet::from_addr_prefix"]
+        ok = len(calls) == 1 and any(x.endswith("for std::net::IpAddr>::from_str") for x in calls_of(calls[0][1][0])) and any(x.endswith("for u8>::from_str") for x in calls_of(calls[0][1][1])) \
+            and not [r for r in (S.roots(calls[0][1][0]) | S.roots(calls[0][1][1])) if r.startswith("op:") and r != "op:mutated"]
+        rep.ob("C02.tables", "%s|%s" % (cfg, fn), ok, "`addr/prefix` text is parsed into (IpAddr, u8) and passed on unchanged", found=[core(x).r()[-90:] for x in calls[0][1]] if calls else None)
+    # DnType::from_oid is the inverse of to_oid
+    fn = "certificate::DnType::from_oid"
+    rep.fn(fn)
+    I3 = Interp(crate)
+    v = core(I3.run_fn(fn)["value"])
+    inv = {}
+    custom_ok = False
+    if isinstance(v, PhiV):
+        for c, x in v.alts:
+            xs = core(x)
+            name = (xs.variant or "").split("::")[-1] if hasattr(xs, "variant") else None
+            pos = [a for a in F.atoms(c) if a[0] == "eq" and F.evalf(c, {b: (b == a) for b in F.atoms(c)})]
+            if name == "CustomDnType":
+                custom_ok = places(xs) == {"slice"} and not pos
+            elif len(pos) == 1:
+                cname = [s_ for s_ in pos[0][1:] if isinstance(s_, str) and s_.startswith("oid::")]
+                if cname:
+                    inv[name] = I3.concrete(I3.const_value(cname[0]))
+    rep.ob("C02.tables", "%s|%s" % (cfg, fn), inv == DN_OIDS and custom_ok, "from_oid is the inverse of to_oid (each registered OID maps to its attribute type; anything else becomes CustomDnType(oid))", expected=DN_OIDS, found=inv)
     fn = "certificate::CidrSubnet::to_bytes"
     rep.fn(fn)
     I2 = Interp(crate)
